@@ -86,11 +86,19 @@ def snapshot(w):
 def build(sp_choices):
     """Build one world from already drawn concrete choices."""
     w = World()
-    bits, dead, procs, ce, detached = sp_choices
+    bits, dead, procs, ce, detached = sp_choices[:5]
+    moved = len(sp_choices) > 5 and sp_choices[5]
     for (e, T), b in bits.items():
         if b:
             w.add_component(e, T(tag='%s%r' % (T.__name__, e)))
     ctl = Ctl(tag='ctl')
+    if moved:
+        # the controller belonged to another entity before: attached there, removed, then attached to `ce`
+        other = [x for x in IDS if x != ce][0]
+        had = w.get_component(other, Ctl)
+        w.add_component(other, ctl)
+        w.remove_component(other, Ctl)
+        assert had is None
     w.add_component(ce, ctl)
     if procs[0]:
         w.add_processor(PA(tag='pa'))
@@ -213,7 +221,10 @@ def h_twin(sp, steps=1, second_types=3, focus=None, ids=None):
         sp.cover('detached-controller')
         if not any(b for (e2, _), b in bits.items() if e2 == ce):
             sp.cover('controller-of-empty-entity')
-    choices = (bits, dead, procs, ce, detached)
+    moved = focus is None and not detached and bool(sp.flag('controller-moved'))
+    if moved:
+        sp.cover('moved-controller')
+    choices = (bits, dead, procs, ce, detached, moved)
     w1, c1 = build(choices)     # plain World calls
     w2, c2 = build(choices)     # shorthands
     sp.note('built: bits=%s dead=%s procs=%s controller on %r%s' % (
@@ -278,9 +289,10 @@ def h_twin(sp, steps=1, second_types=3, focus=None, ids=None):
 
 # ------------------------------------------------------------------------------------------------ prototypes
 class K(object):
-    def __init__(self, source='default', via=None):
+    def __init__(self, source='default', via=None, owner=None):
         self.source = source
         self.via = via
+        self.owner = owner      # serial number of the Prototype instance whose method built it (methods only)
 
 
 def h_proto(sp, n_types=3, same_name=True, falsy=True):
@@ -312,7 +324,7 @@ def h_proto(sp, n_types=3, same_name=True, falsy=True):
 
     def mk_method(label):
         def method(self, t):
-            return t(source='method', via=label)
+            return t(source='method', via=label, owner=getattr(self, 'serial', None))
         return method
 
     falsy_entries = falsy and bool(sp.flag('falsy-dict-entries'))
@@ -381,13 +393,24 @@ def h_proto(sp, n_types=3, same_name=True, falsy=True):
             expect[i] = ('default', None)
             sp.cover('from-default')
     proto = cls()
+    proto.serial = 1
+    proto2 = cls()              # a second instance of the same Prototype class, used after the first
+    proto2.serial = 2
     try:
         first = list(proto)
         second = list(proto)
+        third = list(proto2)
     except Exception as ex:     # noqa
         sp.fail('op-raises', 'iterating the prototype raised %r' % (ex,))
+    for serial, run in ((1, first), (1, second), (2, third)):
+        for i, c in enumerate(run):
+            if c.source == 'method':
+                sp.check(c.owner == serial, 'proto-instance',
+                         'component %d of prototype instance %d was built by a method bound to instance %r' % (i, serial, c.owner))
+                if serial == 2:
+                    sp.cover('second-instance-method')
     sp.note('types=%s prefix=%s sub=%s expect=%s' % ([t.__name__ for t in kinds], prefix, use_sub, expect))
-    for run in (first, second):
+    for run in (first, second, third):
         sp.check(len(run) == len(kinds), 'proto-count', 'prototype yielded %d components for %d types' % (len(run), len(kinds)))
         for i, (c, t) in enumerate(zip(run, kinds)):
             sp.check(type(c) is t, 'proto-type', 'component %d has type %s, listed %s' % (i, type(c).__name__, t.__name__))
@@ -532,10 +555,10 @@ def h_update(sp, max_listeners=3, frames=2, adder=False, raiser=False):
 
 HARNESSES = {
     'twin': dict(fn=h_twin, nontrivial=COMP_OPS + NULLARY + PROC_OPS,
-                 required=COMP_OPS + NULLARY + PROC_OPS + ['detached-controller', 'controller-of-empty-entity']),
+                 required=COMP_OPS + NULLARY + PROC_OPS + ['detached-controller', 'controller-of-empty-entity', 'moved-controller']),
     'proto': dict(fn=h_proto, nontrivial=['from-dict', 'from-method', 'from-sub-method', 'name-clash', 'sub-init_methods'],
                   required=['from-dict', 'from-method', 'from-sub-method', 'from-default', 'name-clash', 'sub-init_methods',
-                            'type-listed-twice', 'falsy-dict-entry']),
+                            'type-listed-twice', 'falsy-dict-entry', 'second-instance-method']),
     'update': dict(fn=h_update, nontrivial=['relayed'], required=['relayed'], split=False),
 }
 TIERS = {
@@ -549,7 +572,7 @@ TIERS = {
     'thorough': [('update', dict(max_listeners=3, frames=3, adder=True), dict(required=['relayed', 'listener-adds-processor'])),
                  ('twin', dict(steps=2)), ('twin', dict(steps=4, focus='procs'), dict(required=PROC_OPS + ['direct-world-op'])),
                  ('twin', dict(steps=2, second_types=1, ids=(None, '')), dict(required=COMP_OPS + NULLARY + ['unusual-ids'])),
-                 ('twin', dict(steps=4, focus='comps'), dict(required=FOCUS_COMP_OPS + ['ref-set-sub', 'direct-world-op'])), ('proto', dict(n_types=3, falsy=False), dict(required=['from-dict', 'from-method', 'from-sub-method', 'from-default', 'name-clash', 'sub-init_methods', 'type-listed-twice'])),
+                 ('twin', dict(steps=4, focus='comps'), dict(required=FOCUS_COMP_OPS + ['ref-set-sub', 'direct-world-op'])), ('proto', dict(n_types=3, falsy=False), dict(required=['from-dict', 'from-method', 'from-sub-method', 'from-default', 'name-clash', 'sub-init_methods', 'type-listed-twice', 'second-instance-method'])),
                  ('proto', dict(n_types=2)), ('update', dict(max_listeners=4, frames=3)),
                  ('update', dict(max_listeners=3, frames=4, raiser=True), dict(required=['relayed', 'listener-raised', 'frame-after-failure']))],
 }
